@@ -7,10 +7,16 @@ ID=$1; V=$2; SRC=$3; shift 3
 EXTRA="$@"
 WT=/tmp/evalwt-$ID$V
 OUT=/verif/seeded/$ID$V
-BASE=$(git -C "$SRC/.." rev-parse HEAD 2>/dev/null || echo HEAD)   # the commit the seeded change was written against
-rm -rf "$WT"; git -C /repo worktree prune; git -C /repo worktree add -q --detach "$WT" "$BASE" || exit 3
+WRITTEN=$(git -C "$SRC/.." rev-parse HEAD 2>/dev/null || echo HEAD)   # the commit the seeded change was written against
 mkdir -p "$OUT"
 cp "$SRC/$ID$V.diff" "$OUT/patch.diff"; cp "$SRC/${ID}${V}_demo.py" "$OUT/demo.py"; cp "$SRC/$ID$V.md" "$OUT/notes.md" 2>/dev/null
+# evaluate on the current HEAD of /repo when the patch applies there (later fixes included), else on the commit it was written against
+BASE=$(git -C /repo rev-parse HEAD)
+rm -rf "$WT"; git -C /repo worktree prune; git -C /repo worktree add -q --detach "$WT" "$BASE" || exit 3
+if ! git -C "$WT" apply --check "$OUT/patch.diff" 2>/dev/null; then
+  git -C /repo worktree remove --force "$WT"; BASE=$WRITTEN
+  git -C /repo worktree add -q --detach "$WT" "$BASE" || exit 3
+fi
 res() { echo "$1" ; }
 cd "$WT"
 PYTHONPATH=$WT/src timeout 300 /venv/bin/python "$OUT/demo.py" >/dev/null 2>&1; DEMO_CLEAN=$?
